@@ -19,6 +19,11 @@ ASSUMPTIONS = ["random.random() jitter in interval.py is an input, not shared st
 
 def check(ctx):
     a = ctx.a
+    # "The only shared resource is the packet-identifier counter, and identifiers still never collide": the allocator's rules (C17)
+    # are the clause of this property about the one thing the addresses do share
+    from .common import run_premise
+    run_premise(ctx, "C17", "I-IDS", "identifiers", "the shared identifier allocator treats every address alike and never hands out an identifier in use",
+                "the one resource the addresses share couples them: what one address gets depends on which other addresses exist")
     prog = a.prog
     eng0 = a.engine(a.protos[0])
     regs = eng0.registries
@@ -385,3 +390,34 @@ def _is_fresh_container(t):
     if t[0] == "call" and isinstance(t[1], tuple) and t[1][0] == "builtin" and t[1][1] in ("dict", "list", "set") and not t[2]:
         return True
     return False
+
+
+def build_overwrites(analysis):
+    """Registry -> event for every buildProtocol path on which the container an address already has may be replaced: the per-address
+    state (windows, queue) outlives protocol objects - a protocol built for a known address (a reconnection) inherits it - so
+    buildProtocol may store a container only when the address has none (get/setdefault with a default, or under `addr not in R`)."""
+    from .common import profile_map
+    out = {}
+    for p in profile_map(analysis):
+        if p.exit_kind() != "return":
+            continue
+        for e in p.events:
+            if e.kind != "REGTOP":
+                continue
+            v = e.a["val"]
+            keeps = False
+            if isinstance(v, tuple) and v[0] == "call" and isinstance(v[1], tuple) and v[1][0] == "attr" and v[1][2] in ("get", "setdefault") \
+                    and v[1][1] == ("regtop", e.a["reg"]) and v[2] and v[2][0] == e.a["key"]:
+                keeps = True          # the address's own container, or the default when it has none
+            if isinstance(v, tuple) and v[:2] == ("reg", e.a["reg"]) :
+                keeps = True          # re-stores what was read from the same registry
+            for c in e.conds:
+                t, pol = c.term, c.pol
+                while isinstance(t, tuple) and t and t[0] == "not":
+                    t, pol = t[1], not pol
+                if isinstance(t, tuple) and t[:2] in (("cmp", "in"), ("cmp", "not in")) and t[2] == e.a["key"] and t[3] == ("regtop", e.a["reg"]):
+                    if (t[1] == "in") != bool(pol):
+                        keeps = True      # stored only on the path where the address is not there yet
+            if not keeps:
+                out.setdefault(e.a["reg"], e)
+    return out
